@@ -155,8 +155,12 @@ def gen_fuzz(rng):
     if k == 8:   # valid packet truncated or extended
         b = bytes(gen_packet(rng))
         return b[:rng.randint(0, len(b))] if rng.random() < 0.6 else b + rb(rng.randint(1, 4))
-    if k == 9:   # case variants
-        return b'\0\1File.TXT\0' + rng.choice([b'OcTeT', b'NETASCII']) + b'\0BlkSize\0' + rng.choice([b'1468', b'0X10', b'1E3']) + b'\0TSIZE\x000\0'
+    if k == 9:   # case variants (names AND values are folded, in requests and in option acknowledgements alike)
+        if rng.random() < 0.4:
+            return b'\0\6' + rng.choice([b'BlkSize\0', b'x\0', b'TSIZE\0']) + rng.choice([b'0X10', b'Yes', b'SHA256:DEADBEEF', b'1E3']) + b'\0' + \
+                rng.choice([b'', b'other\0MiXeD vAlUe\0'])
+        return b'\0' + bytes([rng.choice([1, 2])]) + b'File.TXT\0' + rng.choice([b'OcTeT', b'NETASCII']) + b'\0BlkSize\0' + rng.choice([b'1468', b'0X10', b'1E3']) + \
+            b'\0TSIZE\x000\0' + rng.choice([b'', b'Custom\0VaLuE\0'])
     if k == 10:
         return b'\0\1' + rb(rng.randint(1, 10)).replace(b'\0', b'a') + b'\0octet\0' + rb(rng.randint(0, 12))
     return b'\0\6' + rb(rng.randint(0, 20))
